@@ -21,6 +21,8 @@ enum Op {
     Inc(u64),
     Dec(u64),
     SetPos(u64),
+    /// the builder `with_position(p)` applied to a handle of the running bar (it SETS the position)
+    WithPos(u64),
     SetLen(u64),
     IncLen(u64),
     DecLen(u64),
@@ -47,6 +49,7 @@ fn op_class(op: &Op) -> &'static str {
         Op::Inc(_) => "inc",
         Op::Dec(_) => "dec",
         Op::SetPos(_) => "set_position",
+        Op::WithPos(_) => "with_position",
         Op::SetLen(_) => "set_length",
         Op::IncLen(_) => "inc_length",
         Op::DecLen(_) => "dec_length",
@@ -100,7 +103,8 @@ fn sequential_case(seed: u64, idx: u64) -> CaseOut {
     let mut ops: Vec<Op> = Vec::new();
     let mut co = CaseOut::held(0, true);
     for step in 0..n {
-        let op = match rng.below(16) {
+        let op = match rng.below(17) {
+            16 => Op::WithPos(rng.u64_biased()),
             0 | 1 => Op::Inc(rng.u64_biased()),
             2 => Op::Dec(rng.u64_biased()),
             3 | 4 => Op::SetPos(rng.u64_biased()),
@@ -120,7 +124,7 @@ fn sequential_case(seed: u64, idx: u64) -> CaseOut {
         match &op {
             Op::Inc(d) => pos = pos.wrapping_add(*d),
             Op::Dec(d) => pos = pos.wrapping_sub(*d),
-            Op::SetPos(p) | Op::UpdateSetPos(p) => pos = *p,
+            Op::SetPos(p) | Op::UpdateSetPos(p) | Op::WithPos(p) => pos = *p,
             Op::SetLen(l) | Op::UpdateSetLen(l) => len = Some(*l),
             Op::IncLen(d) => len = len.map(|l| l.saturating_add(*d)),
             Op::DecLen(d) => len = len.map(|l| l.saturating_sub(*d)),
@@ -163,6 +167,7 @@ fn sequential_case(seed: u64, idx: u64) -> CaseOut {
                 Op::Inc(d) => pb.inc(*d),
                 Op::Dec(d) => pb.dec(*d),
                 Op::SetPos(p) => pb.set_position(*p),
+                Op::WithPos(p) => drop(pb.clone().with_position(*p)),
                 Op::SetLen(l) => pb.set_length(*l),
                 Op::IncLen(d) => pb.inc_length(*d),
                 Op::DecLen(d) => pb.dec_length(*d),
